@@ -9,6 +9,7 @@ import fcntl
 import hashlib
 import json
 import os
+import random
 import re
 import shutil
 import subprocess
@@ -92,6 +93,7 @@ class TlcResult:
         self.generated = 0
         self.distinct = 0
         self.replay = []
+        self.exported = 0      # records exported by TLC (len(replay) unless a reservoir was asked for)
         self.violated = None   # name of violated invariant / property
         self.ok = False
         self.wall = 0.0
@@ -146,8 +148,10 @@ _replay_re = re.compile(r'^<<"REPLAY", "(.*)">>$')
 
 
 def run_tlc(module, cfg, tag, workers=8, timeout=900, simulate=None, depth=None, seed=None,
-            env=None, xmx="6g", dfs=False, keep_stdout=True):
-    """Run TLC on spec/<module>.tla with the given cfg text."""
+            env=None, xmx="6g", dfs=False, keep_stdout=True, max_replay=None, on_replay=None):
+    """Run TLC on spec/<module>.tla with the given cfg text.  TLC's output is read as a stream:
+    exported records (REPLAY lines) are decoded one by one, handed to `on_replay` (statistics
+    over ALL of them) and kept - all of them, or a uniform reservoir sample of `max_replay`."""
     wd = workdir("tlc-" + tag)
     cfgp = os.path.join(wd, f"{tag}.cfg")
     with open(cfgp, "w") as f:
@@ -170,20 +174,43 @@ def run_tlc(module, cfg, tag, workers=8, timeout=900, simulate=None, depth=None,
     if env:
         e.update(env)
     t0 = time.time()
-    p = subprocess.run(cmd, cwd=SPEC, env=e, stdout=subprocess.PIPE, stderr=subprocess.STDOUT, text=True,
-                       errors="replace")
+    p = subprocess.Popen(cmd, cwd=SPEC, env=e, stdout=subprocess.PIPE, stderr=subprocess.STDOUT, text=True,
+                         errors="replace")
     r = TlcResult()
-    r.wall = time.time() - t0
-    out = p.stdout
-    r.stdout = out if keep_stdout else out[-20000:]
-    for line in out.splitlines():
+    other = []          # everything that is not an exported record (bounded)
+    other_chars = 0
+    seen = 0
+    res_rnd = random.Random(0)
+    for line in p.stdout:
+        line = line.rstrip("\n")
         m = _replay_re.match(line)
         if m:
             try:
-                r.replay.append(json.loads(json.loads('"' + m.group(1) + '"')))
+                rec = json.loads(json.loads('"' + m.group(1) + '"'))
             except Exception as ex:  # pragma: no cover
+                p.kill()
                 raise ToolError(f"cannot decode REPLAY line: {ex}: {line[:200]}")
+            seen += 1
+            if on_replay is not None:
+                on_replay(rec)
+            if max_replay is None or len(r.replay) < max_replay:
+                r.replay.append(rec)
+            else:
+                j = res_rnd.randrange(seen)
+                if j < max_replay:
+                    r.replay[j] = rec
             continue
+        other.append(line)
+        other_chars += len(line) + 1
+        while other_chars > 8_000_000 and len(other) > 1000:
+            other_chars -= len(other[0]) + 1
+            other.pop(0)
+    p.wait()
+    r.exported = seen
+    r.wall = time.time() - t0
+    out = "\n".join(other)
+    r.stdout = out if keep_stdout else out[-20000:]
+    for line in other:
         m = re.search(r"(\d[\d,]*) states generated, (\d[\d,]*) distinct states found", line)
         if m:
             r.generated = int(m.group(1).replace(",", ""))
@@ -466,7 +493,7 @@ class Report:
         self.transitions += r.generated
         self.notes.setdefault("tlc_runs", []).append(
             {"what": what, "distinct": r.distinct, "generated": r.generated, "depth": r.depth,
-             "wall_s": round(r.wall, 1), "exported": len(r.replay)})
+             "wall_s": round(r.wall, 1), "exported": r.exported or len(r.replay)})
 
     def sample(self, s, limit=6):
         if len(self.samples) < limit:
